@@ -509,9 +509,12 @@ func TestC28Pool(t *testing.T) {
 					ops = append(ops, pFlush, pFlush, pFlush, pSizeEst, pSizeEst)
 				}
 				if priv >= 0 && privState == 1 {
-					ops = append(ops, hDrop)
+					ops = append(ops, hDrop, hDrop, hDrop, hDrop)
 				}
 				in := pIn{Op: rapid.SampledFrom(ops).Draw(t, "op")}
+				if priv >= 0 && privState == 0 && i == 0 && rapid.IntRange(0, 9).Draw(t, "openPrivateFirst") < 7 {
+					in = pIn{Op: pOpen}
+				}
 				// target database: a shared one, or the goroutine's own private one while it is open
 				pickDB := func(allowPriv bool) int {
 					n := nSh
@@ -526,7 +529,7 @@ func TestC28Pool(t *testing.T) {
 				}
 				switch in.Op {
 				case pOpen:
-					if priv >= 0 && privState == 0 && rapid.Bool().Draw(t, "openPrivate") {
+					if priv >= 0 && privState == 0 && (i == 0 || rapid.Bool().Draw(t, "openPrivate")) {
 						in.D = priv
 						privState = 1
 					} else {
